@@ -82,17 +82,14 @@ theorem inv_remove {st : St} (h : Inv st) (p c : Nat) : Inv (remove st p c).1 :=
   br_facts
   obtain ⟨rk, rp⟩ := removeEvent_spec st p c (st.kids p) (count_le_one_of_nodup (hn p) c)
   unfold remove
-  simp only
-  generalize removeEvent st p c (st.kids p) = st1 at *
   split
   · rename_i hin
+    simp only
+    generalize removeEvent st p c (st.kids p) = st1 at *
     constructor
     · intro p' c'; grind
     · intro p'; grind
-  · rename_i hin
-    constructor
-    · intro p' c'; grind
-    · intro p'; grind
+  · exact h
 
 theorem normIdx_lt {n : Nat} {i : Int} {k : Nat} (h : normIdx n i = some k) : k < n := by
   unfold normIdx at h
